@@ -85,11 +85,20 @@ func runC09(c *Ctx) {
 	if p == nil {
 		return
 	}
-	cfg := p.Cfg.Name
 	roles := resolveDo(c, p)
 	if roles == nil {
 		return
 	}
+	ruleInputStream(c, p, roles, "C09")
+	ruleWriterInvariant(c, p, "C09.writer")
+	c.R.Assumptions = append(c.R.Assumptions,
+		"(*proto.Writer).Flush writes synchronously (net.Buffers.WriteTo) and drops every reference afterwards (C09.writer.* = the C14 induction steps)",
+		"decided: order of encode / flush / callback / terminator on all paths; not decided: byte equality of each block with the snapshot taken inside the callback")
+}
+
+// ruleInputStream: ordering rules of the streamed-INSERT loop (shared by C09 and C02).
+func ruleInputStream(c *Ctx, p *core.Program, roles *doRoles, prefix string) {
+	cfg := p.Cfg.Name
 	// the input streamer: the function of package ch that calls Query.OnInput
 	var streamer *ssa.Function
 	for _, fn := range p.Funcs() {
@@ -108,12 +117,12 @@ func runC09(c *Ctx) {
 	a := collectInputAtoms(streamer)
 	c.R.Count("atoms E/B/F/C", len(a.E)+len(a.B)+len(a.F)+len(a.C))
 	key := core.FuncName(streamer)
-	c.R.Rule("C09.order", "anchor: the input streamer contains all four kinds of atoms - encodeBlock(Input), flush, the OnInput callback and the blank terminator; the ordering rules below are stated over them")
+	c.R.Rule(prefix+".order", "anchor: the input streamer contains all four kinds of atoms - encodeBlock(Input), flush, the OnInput callback and the blank terminator; the ordering rules below are stated over them")
 	if len(a.E) == 0 || len(a.B) == 0 || len(a.F) == 0 || len(a.C) == 0 {
-		c.R.Unk("C09.order", key, cfg, p.Pos(streamer.Pos()), sprintf("atoms missing: E=%d B=%d F=%d C=%d", len(a.E), len(a.B), len(a.F), len(a.C)))
+		c.R.Unk(prefix+".order", key, cfg, p.Pos(streamer.Pos()), sprintf("atoms missing: E=%d B=%d F=%d C=%d", len(a.E), len(a.B), len(a.F), len(a.C)))
 		return
 	}
-	c.R.Ok("C09.order", key, cfg, p.Pos(streamer.Pos()), sprintf("atoms E=%d B=%d F=%d C=%d", len(a.E), len(a.B), len(a.F), len(a.C)))
+	c.R.Ok(prefix+".order", key, cfg, p.Pos(streamer.Pos()), sprintf("atoms E=%d B=%d F=%d C=%d", len(a.E), len(a.B), len(a.F), len(a.C)))
 	isE, isB, isF := isIn(a.E), isIn(a.B), isIn(a.F)
 	isC := func(in ssa.Instruction) bool {
 		for _, x := range a.C {
@@ -125,7 +134,7 @@ func runC09(c *Ctx) {
 	}
 
 	// --- C09.flush: E ... C needs F in between
-	rule := "C09.flush"
+	rule := prefix+".flush"
 	c.R.Rule(rule, "on every path of the input streamer, a block encoded from the caller's columns is flushed before the input callback can run (zero-copy columns are referenced by the writer until Flush): no callback call is reachable from an encodeBlock(Input) without crossing flush, and the error of that flush is honoured")
 	for _, e := range a.E {
 		w := core.ReachAvoiding(core.PointOf(e), isC, isF, nil)
@@ -148,7 +157,7 @@ func runC09(c *Ctx) {
 	runErrDisc(c, p, []*ssa.Function{streamer}, errDiscOpts{Rule: rule, Class: cls, Again: anyAtom})
 
 	// --- C09.terminator
-	rule = "C09.terminator"
+	rule = prefix+".terminator"
 	c.R.Rule(rule, "every success exit of the input streamer that sent anything is preceded by exactly one blank terminator block: no success exit avoids it (other than the no-input-columns exit), nothing is encoded after it, and it is not in a loop")
 	noInput := core.CondEdges(streamer, true, func(cond ssa.Value) (bool, bool) {
 		bo, ok := cond.(*ssa.BinOp)
@@ -195,7 +204,7 @@ func runC09(c *Ctx) {
 	}
 
 	// --- C09.callback
-	rule = "C09.callback"
+	rule = prefix+".callback"
 	c.R.Rule(rule, "E6 for the input callback: from each call of OnInput, no block, terminator, flush or success exit is reachable without crossing the nil edge of a test of its error or the true edge of errors.Is(err, io.EOF)")
 	for _, call := range a.C {
 		ev := core.ErrValue(call)
@@ -230,7 +239,7 @@ func runC09(c *Ctx) {
 	}
 
 	// --- C09.tail
-	rule = "C09.tail"
+	rule = prefix+".tail"
 	c.R.Rule(rule, "end-of-input with rows left sends them: from every io.EOF edge of a callback, the terminator is reachable only through an encodeBlock(Input) or through the false edge of a test `Rows() > 0` of the first input column")
 	rowsFalse := core.CondEdges(streamer, false, func(cond ssa.Value) (bool, bool) {
 		bo, ok := cond.(*ssa.BinOp)
@@ -282,7 +291,7 @@ func runC09(c *Ctx) {
 	}
 
 	// --- C09.final
-	rule = "C09.final"
+	rule = prefix+".final"
 	c.R.Rule(rule, "in the sender goroutine the input streamer's success is followed by flush on every path to a success exit, and both errors are honoured")
 	var si []ssa.Instruction
 	for _, call := range core.Calls(roles.Sender) {
@@ -315,7 +324,4 @@ func runC09(c *Ctx) {
 		}
 		runErrDisc(c, p, []*ssa.Function{roles.Sender}, errDiscOpts{Rule: rule, Class: scls})
 	}
-	c.R.Assumptions = append(c.R.Assumptions,
-		"(*proto.Writer).Flush writes synchronously (net.Buffers.WriteTo) and drops every reference afterwards (C14)",
-		"decided: order of encode / flush / callback / terminator on all paths; not decided: byte equality of each block with the snapshot taken inside the callback")
 }
